@@ -36,7 +36,7 @@ def one_trace(rng, tid, prop):
     names = gen.rand_names(rng, nnames, nnames, pool=(0, 1, 2))
     base = rng.choice([(), (), (2,), (2, 2), (1, 2)])
     for _ in range(rng.randint(1, 3)):
-        mode = rng.choice(["general", "general", "multiple", "constant", "univariate", "numeric_left"])
+        mode = rng.choice(["general", "general", "multiple", "constant", "univariate", "numeric_left", "mixed_leads", "mixed_leads"])
         dshape = gen.broadcast_partner(rng, base)
         if mode == "constant":
             size = int(numpy.prod(dshape, dtype=int))
@@ -45,8 +45,29 @@ def one_trace(rng, tid, prop):
         else:
             dn = names if mode != "univariate" else names[:1]
             divisor = poly(rng, dshape, dn, "float", max_terms=rng.choice([1, 2, 2, 3]), max_exp=2, pool=DIV_COEFS)
+        if mode == "mixed_leads":
+            # a divisor array whose elements have DIFFERENT leading terms (and some constant entries)
+            dn = names[:1] if rng.random() < 0.6 else names
+            size = rng.randint(2, 3)
+            nd_ = len(dn)
+            rows = [[0] * nd_] + [[k] + [0] * (nd_ - 1) for k in (1, 2)] + ([[0, 1] + [0] * (nd_ - 2)] if nd_ > 1 else [])
+            coefs = [[rng.choice(DIV_COEFS) for _ in range(size)] for _ in rows]
+            for k in range(size):                      # element k has degree k (mod 3) in the first variable
+                deg = k % 3
+                for ri, row in enumerate(rows):
+                    if row[0] > deg or (nd_ > 1 and ri == len(rows) - 1 and k != 1):
+                        coefs[ri][k] = 0.0
+                if all(coefs[ri][k] == 0.0 for ri in range(len(rows))):
+                    coefs[0][k] = 2.0
+            divisor = build_poly({"shape": [size], "names": list(dn), "rows": rows, "coefs": coefs, "dtype": "float64"})
         d = rec.new(divisor)
         args = None
+        if mode == "mixed_leads":
+            nn = dn
+            shape_n = rng.choice([(), (size,)])
+            n = rec.new(poly(rng, shape_n, nn, "float", max_terms=4, max_exp=3, pool=(-3.0, -2.0, 1.0, 2.0, 4.0, 5.0, 7.0), allow_zero_elements=False))
+            args = [n, d]
+            mode = "done"
         if mode == "multiple":
             cof = poly(rng, gen.broadcast_partner(rng, base), names, "float", max_terms=2, max_exp=2,
                        pool=(-2.0, -1.0, 1.0, 2.0, 3.0, 0.5))
@@ -58,7 +79,7 @@ def one_trace(rng, tid, prop):
         elif mode == "numeric_left":
             n = rec.new(gen.rand_numeric(rng, gen.broadcast_partner(rng, base), "float"))
             args = [n, d]
-        else:
+        elif mode != "done":
             nn = names if mode != "univariate" else names[:1]
             kind = rng.choice(["float", "int"])
             n = rec.new(poly(rng, base, nn, kind, max_terms=rng.choice([2, 3, 4]), max_exp=3,
